@@ -21,6 +21,7 @@ from __future__ import annotations
 
 import ast
 import ctypes
+import itertools
 import math
 import os
 import shutil
@@ -54,6 +55,12 @@ NAMED_WITHOUT_TEMPLATE = ("eps", "smallest_subnormal", "nan", "undefined")
 
 class Skip(Exception):
     pass
+
+
+def viol(part, sig, msg, case):
+    """add_violation with the scenario (e.g. a re-used Context) as signature prefix."""
+    sc = case.get("scenario") if isinstance(case, dict) else None
+    add_violation(part, f"{sc}:{sig}" if sc else sig, msg, case)
 
 
 def pyeval(fa, e, env, memo):
@@ -152,6 +159,41 @@ CMP = ["lt", "le", "gt", "ge", "eq", "ne"]
 CONSTS = [("c", 0), ("c", 1), ("c", 0.5), ("c", -0.0), ("c", -2.5), ("c", 2), ("c", float("inf")), ("c", -float("inf")), ("n", "largest"), ("n", "smallest"), ("n", "posinf"), ("n", "neginf"), ("n", "pi"), ("n", "eps")]
 
 
+def named_reference_programs():
+    """explicitly named references that collide: a helper h(a, b) = t*t with t = (a*b + a).reference("t") used 1..4 times on
+    different operands, at top level / inside one ctx.call scope / each use in its own ctx.call scope, with and without
+    a top-level expression that also asks for the name "t", and with a second colliding name."""
+    x, y = ("x",), ("y",)
+    operands = [(x, y), (y, x), (("add", x, y), x), (("subtract", x, y), y)]
+
+    def h(a, b, name="t"):
+        t = ("ref", name, ("add", ("multiply", a, b), a))
+        return ("multiply", t, t)
+
+    out = []
+    for n in (1, 2, 3, 4):
+        for wrap in ("none", "one-scope", "scope-per-use", "nested-scope"):
+            for top in (False, True):
+                for second in (False, True):
+                    if second and n < 3:
+                        continue
+                    uses = [h(a, b, "u" if (second and i % 2) else "t") for i, (a, b) in enumerate(operands[:n])]
+                    if wrap == "scope-per-use":
+                        uses = [("call", "helper", u) for u in uses]
+                    body = uses[0]
+                    for u in uses[1:]:
+                        body = ("add", body, u)
+                    if wrap == "one-scope":
+                        body = ("call", "outer", body)
+                    if wrap == "nested-scope":
+                        body = ("call", "outer", ("call", "inner", body))
+                    if top:
+                        tt = ("ref", "t", ("add", x, y))
+                        body = ("multiply", body, ("multiply", tt, tt))
+                    out.append(body)
+    return out
+
+
 def lattice_programs():
     x, y = ("x",), ("y",)
     sel = ("select", ("lt", x, y), x, y)
@@ -178,6 +220,11 @@ def lattice_programs():
     s = ("add", x, y)
     d = ("multiply", s, s)
     progs += [d, ("add", d, ("subtract", d, s)), ("select", ("lt", s, d), ("add", s, d), ("multiply", d, ("negative", s))), ("maximum", ("absolute", s), ("absolute", ("negative", s)))]
+    # precision changes (NumPy target only): result type of upcast, fused multiply-add through the wider type
+    ux, uy = ("upcast", x), ("upcast", y)
+    progs += [ux, ("downcast", ux), ("downcast", ("add", ("multiply", ux, uy), ux)), ("downcast", ("multiply", ("add", ux, uy), ("subtract", ux, uy))), ("downcast", ("sqrt", ("add", ("multiply", ux, ux), ("multiply", uy, uy)))),
+              ("add", ("downcast", ("multiply", ux, uy)), x), ("upcast", ("add", x, y)), ("is_finite", x), ("select", ("is_finite", s), s, x), ("round", x)]
+    progs += named_reference_programs()
     seen, out = set(), []
     for r in progs:
         if r not in seen:
@@ -186,7 +233,7 @@ def lattice_programs():
     return out
 
 
-FVALS = [0.0, -0.0, 0.5, 1.0, -1.0, 2.0, -2.5, 1e-300, 1e300, 3.5, 0.25, math.inf, -math.inf, 1e-5, 123.456, 7.0]
+FVALS = [0.0, -0.0, 0.5, 1.0, -1.0, 2.0, -2.5, 1e-300, 1e300, 3.5, 0.25, math.inf, -math.inf, 1e-5, 123.456, 1.0000000009313226]
 
 
 def value_grid(nargs, is_complex):
@@ -211,7 +258,7 @@ def judge_python(fa, part, graph, label, case):
             return
         except Exception as e:
             if type(e).__name__ == "InvalidInput":  # the package's own formatter (black) cannot parse the emitted text
-                add_violation(part, f"python:does-not-load:emitted-text-is-not-valid-python:{offending_kind(graph)}", f"{label}: the emitted Python text is not parsable: {str(e)[:300]}", case)
+                viol(part, f"python:does-not-load:emitted-text-is-not-valid-python:{offending_kind(graph)}", f"{label}: the emitted Python text is not parsable: {str(e)[:300]}", case)
                 return
             bump(part, "python_not_accepted_" + type(e).__name__)
             return
@@ -222,16 +269,16 @@ def judge_python(fa, part, graph, label, case):
         exec(code, ns)
         fn = ns[name]
     except SyntaxError as e:
-        add_violation(part, f"python:does-not-load:SyntaxError:{offending_kind(graph)}", f"{label}: emitted Python does not compile: {e}\n{src[:600]}", case)
+        viol(part, f"python:does-not-load:SyntaxError:{offending_kind(graph)}", f"{label}: emitted Python does not compile: {e}\n{src[:600]}", case)
         return
     except Exception as e:
-        add_violation(part, f"python:does-not-load:{type(e).__name__}", f"{label}: {type(e).__name__}: {e}\n{src[:600]}", case)
+        viol(part, f"python:does-not-load:{type(e).__name__}", f"{label}: {type(e).__name__}: {e}\n{src[:600]}", case)
         return
     for kind, nm in ssa_python(src):
         if kind == "use-before-definition" and nm in NAMED_WITHOUT_TEMPLATE:
-            add_violation(part, f"python:named-constant-without-template:{nm}", f"{label}: named constant `{nm}` is emitted as a bare identifier\n{src[:600]}", case)
+            viol(part, f"python:named-constant-without-template:{nm}", f"{label}: named constant `{nm}` is emitted as a bare identifier\n{src[:600]}", case)
             return
-        add_violation(part, f"python:single-assignment:{kind}", f"{label}: variable `{nm}`: {kind}\n{src[:600]}", case)
+        viol(part, f"python:single-assignment:{kind}", f"{label}: variable `{nm}`: {kind}\n{src[:600]}", case)
     args = list(graph.operands[1:-1])
     cx = "complex" in str(args[0].operands[1])
     ncmp = 0
@@ -247,17 +294,26 @@ def judge_python(fa, part, graph, label, case):
         try:
             got = fn(*vals)
         except NameError as e:
-            add_violation(part, "python:NameError-at-run-time", f"{label} at {vals}: {e}\n{src[:600]}", case)
+            viol(part, "python:NameError-at-run-time", f"{label} at {vals}: {e}\n{src[:600]}", case)
             return
         except Exception as e:
-            add_violation(part, f"python:raises-where-reference-does-not:{type(e).__name__}", f"{label} at {vals}: emitted code raised {type(e).__name__}: {e}; reference value {want!r}\n{src[:600]}", case)
+            viol(part, f"python:raises-where-reference-does-not:{type(e).__name__}", f"{label} at {vals}: emitted code raised {type(e).__name__}: {e}; reference value {want!r}\n{src[:600]}", case)
             return
         ncmp += 1
         if not bits_eq(got, want):
-            add_violation(part, f"python:value-differs:{offending_kind(graph)}", f"{label} at {vals}: emitted code returns {got!r}, direct evaluation of the graph {want!r}\n{src[:600]}", case)
+            viol(part, f"python:value-differs:{offending_kind(graph)}", f"{label} at {vals}: emitted code returns {got!r}, direct evaluation of the graph {want!r}\n{src[:600]}", case)
             return
     if ncmp:
         part["nontrivial"] += 1
+
+
+def vbytes(a):
+    """value bytes of a scalar; x87 extended values carry 6 padding bytes per component that are not part of the value."""
+    a = np.asarray(a)
+    b = a.tobytes()
+    if a.dtype in (np.dtype(np.longdouble), np.dtype(np.clongdouble)) and np.finfo(np.longdouble).nmant == 63 and np.dtype(np.longdouble).itemsize == 16:
+        return b"".join(b[i:i + 10] for i in range(0, len(b), 16))
+    return b
 
 
 def offending_kind(graph):
@@ -295,7 +351,7 @@ def judge_numpy(fa, part, graph, label, case, dts):
                 return
             except Exception as e:
                 if type(e).__name__ == "InvalidInput":
-                    add_violation(part, f"numpy:does-not-load:emitted-text-is-not-valid-python:{offending_kind(graph)}", f"{label}: the emitted NumPy text is not parsable: {str(e)[:300]}", case)
+                    viol(part, f"numpy:does-not-load:emitted-text-is-not-valid-python:{offending_kind(graph)}", f"{label}: the emitted NumPy text is not parsable: {str(e)[:300]}", case)
                     return
                 bump(part, "numpy_not_accepted_" + type(e).__name__)
                 return
@@ -309,14 +365,14 @@ def judge_numpy(fa, part, graph, label, case, dts):
                 exec(code, ns)
             fn = ns[graph.props.get("name", str(graph.operands[0].operands[0]))]
         except SyntaxError as e:
-            add_violation(part, f"numpy:does-not-load:SyntaxError:{offending_kind(graph)}", f"{label}: emitted NumPy code does not compile: {e}\n{src[:600]}", case)
+            viol(part, f"numpy:does-not-load:SyntaxError:{offending_kind(graph)}", f"{label}: emitted NumPy code does not compile: {e}\n{src[:600]}", case)
             return
         except Exception as e:
-            add_violation(part, f"numpy:does-not-load:{type(e).__name__}", f"{label}: {type(e).__name__}: {e}", case)
+            viol(part, f"numpy:does-not-load:{type(e).__name__}", f"{label}: {type(e).__name__}: {e}", case)
             return
         if debug == 0:
             for kind, nm in ssa_python(src):
-                add_violation(part, f"numpy:single-assignment:{kind}", f"{label}: variable `{nm}`: {kind}\n{src[:600]}", case)
+                viol(part, f"numpy:single-assignment:{kind}", f"{label}: variable `{nm}`: {kind}\n{src[:600]}", case)
         args = list(graph.operands[1:-1])
         cx = np.dtype(dts[0]).kind == "c"
         grid = value_grid(len(args), cx)
@@ -341,14 +397,14 @@ def judge_numpy(fa, part, graph, label, case, dts):
                 bump(part, "numpy_debug_assertion")  # C08's subject
                 return
             except Exception as e:
-                add_violation(part, f"numpy:raises:{type(e).__name__}:{offending_kind(graph)}", f"{label} at {[c[j] for c in cols]}: {type(e).__name__}: {e}\n{src[:500]}", case)
+                viol(part, f"numpy:raises:{type(e).__name__}:{offending_kind(graph)}", f"{label} at {[c[j] for c in cols]}: {type(e).__name__}: {e}\n{src[:500]}", case)
                 return
             g = np.asarray(got)
             w = np.broadcast_to(want, (len(grid),) + want.shape[1:])[j] if want.shape else want
             w = np.asarray(w)
-            same = g.dtype == w.dtype and (g.tobytes() == w.tobytes() or (g.dtype.kind in "fc" and np.array_equal(np.isnan(g.real), np.isnan(w.real)) and (np.isnan(g.real) or g.real.tobytes() == w.real.tobytes()) and (g.dtype.kind != "c" or (np.isnan(g.imag) and np.isnan(w.imag)) or g.imag.tobytes() == w.imag.tobytes())))
+            same = g.dtype == w.dtype and (vbytes(g) == vbytes(w) or (g.dtype.kind in "fc" and np.array_equal(np.isnan(g.real), np.isnan(w.real)) and (np.isnan(g.real) or vbytes(g.real) == vbytes(w.real)) and (g.dtype.kind != "c" or (np.isnan(g.imag) and np.isnan(w.imag)) or vbytes(g.imag) == vbytes(w.imag))))
             if not same:
-                add_violation(part, f"numpy:value-differs:{offending_kind(graph)}", f"{label} (debug={debug}) at {[c[j] for c in cols]}: emitted code returns {got!r} ({g.dtype}), interpreter {w!r} ({w.dtype})", case)
+                viol(part, f"numpy:value-differs:{offending_kind(graph)}", f"{label} (debug={debug}) at {[c[j] for c in cols]}: emitted code returns {got!r} ({g.dtype}), interpreter {w!r} ({w.dtype})", case)
                 return
             n += 1
         if n:
@@ -357,14 +413,12 @@ def judge_numpy(fa, part, graph, label, case, dts):
 
 # ------------------------------------------------------------------ cpp target
 
-SHIM = r"""
-#include <cmath>
-#include <algorithm>
+SHIM_BODY = r"""
 extern "C" {
 #define U(n) float s_##n##f(float a){return std::n(a);} double s_##n##d(double a){return std::n(a);}
 U(abs) U(sqrt) U(exp) U(log) U(log1p) U(sin) U(cos) U(tan) U(atan) U(asinh) U(acosh) U(asin) U(acos) U(atanh) U(expm1) U(log2) U(log10) U(tanh) U(sinh) U(cosh) U(floor) U(ceil) U(round)
 #define B(n) float s_##n##f(float a,float b){return std::n(a,b);} double s_##n##d(double a,double b){return std::n(a,b);}
-B(atan2) B(max) B(min) B(copysign)
+B(atan2) B(copysign)
 int s_isfinitef(float a){return std::isfinite(a);} int s_isfinited(double a){return std::isfinite(a);}
 }
 """
@@ -379,46 +433,60 @@ def build_so(srcs, workdir, name):
     return (so if p.returncode == 0 else None), p.stderr
 
 
-class CppRef:
-    """scalar interpreter over the libm shim (float / double)."""
+LIBM_UN = {"acos": "acos", "acosh": "acosh", "asin": "asin", "asinh": "asinh", "atan": "atan", "atanh": "atanh", "cos": "cos", "cosh": "cosh", "sin": "sin", "sinh": "sinh",
+           "tan": "tan", "tanh": "tanh", "exp": "exp", "expm1": "expm1", "log": "log", "log1p": "log1p", "log2": "log2", "log10": "log10", "ceil": "ceil", "floor": "floor",
+           "round": "round", "sqrt": "sqrt", "absolute": "abs"}
 
-    def __init__(self, so):
-        self.lib = ctypes.CDLL(so)
 
-    def fn(self, name, suffix, nargs):
-        f = getattr(self.lib, f"s_{name}{suffix}")
-        ct = ctypes.c_float if suffix == "f" else ctypes.c_double
-        f.restype = ctypes.c_int if name == "isfinite" else ct
-        f.argtypes = [ct] * nargs
+class LibmInterp(interp.Interp):
+    """mc.interp with every C++-library primitive taken from the very libm/libstdc++ the emitted code links against
+    (through the extern "C" shim compiled into the same shared object), evaluated in the declared type:
+    `direct evaluation of the graph using the same primitive library`."""
+
+    def __init__(self, fa, graph, lib, t):
+        super().__init__(fa, graph)
+        self.lib, self.t = lib, t
+        self.sfx = "f" if t is np.float32 else "d"
+        self.ct = ctypes.c_float if t is np.float32 else ctypes.c_double
+        self._fn = {}
+
+    def cfun(self, name, nargs):
+        f = self._fn.get(name)
+        if f is None:
+            f = getattr(self.lib, f"s_{name}{self.sfx}")
+            f.restype = self.ct
+            f.argtypes = [self.ct] * nargs
+            self._fn[name] = f
         return f
 
-    def eval(self, fa, e, env, t, memo):
-        k = id(e)
-        if k in memo:
-            return memo[k]
-        sfx = "f" if t is np.float32 else "d"
-        kind = e.kind
-        if kind == "symbol":
-            r = env[str(e.operands[0])]
-        elif kind == "constant":
-            v = e.operands[0]
-            if isinstance(v, str):
-                fi = np.finfo(t)
-                tab = {"smallest": fi.smallest_normal, "largest": fi.max, "posinf": t(np.inf), "neginf": -t(np.inf), "pi": np.float64(math.pi)}
-                if v not in tab:
-                    raise Skip(v)
-                r = tab[v]
-            elif hasattr(v, "kind"):
-                raise Skip("alt")
-            else:
-                # C++ literals are untyped: an integer literal is int, a floating literal is double
-                r = v
-        elif kind == "apply":
-            r = self.eval(fa, e.operands[-1], env, t, memo)
-        else:
-            raise Skip("cpp reference interpreter: only used for loading/compiling in this version")
-        memo[k] = r
-        return r
+    def _real(self, v):
+        a = np.asarray(v)
+        if a.dtype.type is not self.t:
+            raise interp.Unsupported(f"operand of type {a.dtype} in a {self.t.__name__} graph")
+        return a
+
+    def _eval(self, e, env, flags):
+        k = e.kind
+        if k in LIBM_UN or k in ("atan2", "maximum", "minimum", "sign"):
+            ops = [env[id(o)] for o in e.operands]
+            if any(isinstance(o, interp.Cx) for o in ops):
+                raise interp.Unsupported("complex operand")
+            ops = [self._real(o) for o in ops]
+            if k in LIBM_UN:
+                f = self.cfun(LIBM_UN[k], 1)
+                a = ops[0]
+                return np.array([f(float(v)) for v in a.ravel()], dtype=self.t).reshape(a.shape)
+            a, b = (np.broadcast_arrays(*ops) if len(ops) == 2 else (ops[0], None))
+            if k == "atan2":
+                f = self.cfun("atan2", 2)
+                return np.array([f(float(u), float(v)) for u, v in zip(a.ravel(), b.ravel())], dtype=self.t).reshape(a.shape)
+            if k == "maximum":  # std::max(a, b) is (a < b) ? b : a
+                return np.where(a < b, b, a)
+            if k == "minimum":  # std::min(a, b) is (b < a) ? b : a
+                return np.where(b < a, b, a)
+            if k == "sign":  # value only; rows with a zero operand are not judged (see judge_cpp_batch)
+                return np.where(a == 0, a, np.copysign(self.t(1), a))
+        return super()._eval(e, env, flags)
 
 
 def judge_cpp_batch(fa, part, items, workdir, tag):
@@ -442,22 +510,22 @@ def judge_cpp_batch(fa, part, items, workdir, tag):
             seen = {n for t_, n in f["args"]}
             for t_, v, e in f["stmts"]:
                 if v in seen:
-                    add_violation(part, "cpp:single-assignment:assigned-twice", f"{label}: `{v}` assigned twice\n{src[:500]}", case)
+                    viol(part, "cpp:single-assignment:assigned-twice", f"{label}: `{v}` assigned twice\n{src[:500]}", case)
                 seen.add(v)
         except ValueError as e:
-            add_violation(part, "cpp:unparsable", f"{label}: {e}\n{src[:500]}", case)
+            viol(part, "cpp:unparsable", f"{label}: {e}\n{src[:500]}", case)
         # compile each function on its own first (cheap syntax check of the batch comes later)
         ok_items.append((idx, graph, label, case, dts, src))
         srcs.append(src)
         if not any(np.dtype(d).kind == "c" for d in dts):
             ct_ = "float" if np.dtype(dts[0]).type is np.float32 else "double"
-            body_bool = graph.operands[-1].kind in ("lt", "le", "gt", "ge", "eq", "ne", "logical_and", "logical_or", "logical_not")
+            body_bool = graph.operands[-1].kind in ("lt", "le", "gt", "ge", "eq", "ne", "logical_and", "logical_or", "logical_not", "is_finite")
             sig_ = ", ".join(f"{ct_} a{i}" for i in range(len(dts)))
             call_ = ", ".join(f"a{i}" for i in range(len(dts)))
             srcs.append(f'extern "C" {"bool" if body_bool else ct_} w_{idx}({sig_}) {{ return fn_{idx}({call_}); }}')
     if not ok_items:
         return
-    so, err = build_so("\n\n".join(srcs), workdir, f"batch_{tag}")
+    so, err = build_so("\n\n".join(srcs) + "\n" + SHIM_BODY, workdir, f"batch_{tag}")
     if so is None:
         # find the culprits one by one
         for idx, graph, label, case, dts, src in ok_items:
@@ -476,36 +544,36 @@ def judge_cpp_batch(fa, part, items, workdir, tag):
                     cls = "named-constant-without-template:" + [nm for nm in NAMED_WITHOUT_TEMPLATE if f"‘{nm}’ was not declared" in err1][0]
                 else:
                     cls = "other:" + offending_kind(graph)
-                add_violation(part, f"cpp:does-not-compile:{cls}", f"{label}: g++ rejects the emitted function: {' | '.join(first)[:400]}\n{src[:500]}", case)
+                viol(part, f"cpp:does-not-compile:{cls}", f"{label}: g++ rejects the emitted function: {' | '.join(first)[:400]}\n{src[:500]}", case)
             else:
                 part["nontrivial"] += 1
         return
     part["nontrivial"] += len(ok_items)
-    # execute real-argument functions: bit-compare with the NumPy-target interpreter evaluated in the same
-    # type on inputs where all primitives are correctly rounded in both libraries (+,-,*,/,sqrt, comparisons, select, abs, min, max, neg)
+    # execute real-argument functions: bit-compare with the graph evaluated in the declared type with the primitives of
+    # the same C++ library (LibmInterp)
     lib = ctypes.CDLL(so)
-    EXACT = {"symbol", "constant", "apply", "add", "subtract", "multiply", "divide", "sqrt", "absolute", "negative", "positive", "select", "lt", "le", "gt", "ge", "eq", "ne", "logical_and", "logical_or", "logical_not", "maximum", "minimum"}
     for idx, graph, label, case, dts, src in ok_items:
         if any(np.dtype(d).kind == "c" for d in dts):
+            bump(part, "cpp_not_executed_complex_arguments")
             continue
         kinds = set()
         stack, seen = [graph.operands[-1]], set()
-        consts_ok = True
+        signs = []
         while stack:
             e = stack.pop()
             if id(e) in seen:
                 continue
             seen.add(id(e))
             kinds.add(e.kind)
-            if e.kind == "constant" and isinstance(e.operands[0], str):
-                consts_ok = consts_ok and e.operands[0] in ("largest", "smallest", "posinf", "neginf")
+            if e.kind == "sign":
+                signs.append(e)
             for o in e.operands:
                 if isinstance(o, type(graph)):
                     stack.append(o)
-        if not kinds <= EXACT or not consts_ok:
-            bump(part, "cpp_not_executed_inexact_primitives")
-            continue
         t = np.dtype(dts[0]).type
+        if any(np.dtype(d).type is not t for d in dts):
+            bump(part, "cpp_not_executed_mixed_argument_types")
+            continue
         ct = ctypes.c_float if t is np.float32 else ctypes.c_double
         try:
             fn = getattr(lib, f"w_{idx}")
@@ -514,26 +582,44 @@ def judge_cpp_batch(fa, part, items, workdir, tag):
             continue
         nargs = len(dts)
         fn.argtypes = [ct] * nargs
-        body_is_bool = graph.operands[-1].kind in ("lt", "le", "gt", "ge", "eq", "ne", "logical_and", "logical_or", "logical_not")
+        body_is_bool = graph.operands[-1].kind in ("lt", "le", "gt", "ge", "eq", "ne", "logical_and", "logical_or", "logical_not", "is_finite")
         fn.restype = ctypes.c_bool if body_is_bool else ct
         grid = value_grid(nargs, False)
         cols = [np.array([v[i] for v in grid], dtype=t) for i in range(nargs)]
         try:
-            want = np.asarray(interp.Interp(fa, graph).run(*cols))
+            want, extra = LibmInterp(fa, graph, lib, t).run(*cols, return_env=True)
+            want = np.asarray(want)
+        except interp.Unsupported as e:
+            bump(part, "cpp_not_executed_reference_unsupported")
+            continue
         except Exception:
             bump(part, "cpp_reference_failed")
             continue
+        if not body_is_bool and want.dtype.type is not t:
+            bump(part, "cpp_not_executed_result_type_differs")
+            continue
         want = np.broadcast_to(want, (len(grid),))
+        # the value of sign(+-0) is a zero whose sign the property does not fix (the Python, NumPy and C++ templates and
+        # the rewriter's constant folding disagree on it): rows where some sign node sees a zero are not judged
+        judged = np.ones(len(grid), bool)
+        for sg in signs:
+            judged &= np.broadcast_to(np.asarray(extra["env"][id(sg.operands[0])]) != 0, (len(grid),))
+        bump(part, "cpp_executed")
+        if kinds & set(LIBM_UN) - {"sqrt", "absolute", "floor", "ceil"} or "atan2" in kinds:
+            bump(part, "cpp_executed_with_libm_primitives")
         for j in range(len(grid)):
+            if not judged[j]:
+                continue
             got = fn(*[ct(float(c[j])) for c in cols])
             w = want[j]
             if body_is_bool:
                 same = bool(got) == bool(w)
             else:
                 g = t(got)
-                same = g.tobytes() == t(w).tobytes() or (np.isnan(g) and np.isnan(w)) or (g == 0 and w == 0 and ("maximum" in kinds or "minimum" in kinds))
+                same = g.tobytes() == t(w).tobytes() or (np.isnan(g) and np.isnan(w))
             if not same:
-                add_violation(part, f"cpp:value-differs:{'untyped-literal' if any(e_ for e_ in [1]) and 'constant' in kinds else 'general'}", f"{label} at {[c[j] for c in cols]}: compiled C++ returns {got!r}, evaluation of the graph in {t.__name__} gives {w!r}\n{src[:500]}", case)
+                cls = "untyped-literal" if (t is np.float32 and "constant" in kinds) else ("sign-template-computes-in-double" if (t is np.float32 and "sign" in kinds) else offending_kind(graph))
+                viol(part, f"cpp:value-differs:{cls}", f"{label} at {[c[j] for c in cols]}: compiled C++ returns {got!r}, evaluation of the graph in {t.__name__} with the same library gives {w!r}\n{src[:500]}", case)
                 break
 
 
@@ -595,6 +681,71 @@ def w_lattice(task):
     return part
 
 
+def reuse_alphabet():
+    x, y = ("x",), ("y",)
+    s_ = ("add", ("multiply", x, y), x)
+    recipes = [("multiply", s_, s_), ("select", ("lt", x, y), ("sqrt", ("absolute", x)), ("add", y, ("c", 0.5))), ("multiply", ("ref", "t", ("add", x, y)), ("ref", "t", ("add", x, y)))]
+    types = {"python": ["float", "complex"], "numpy": ["float32", "float64", "complex64"], "cpp": ["float32", "float64"]}
+    return recipes, types
+
+
+def w_reuse(task):
+    """histories on ONE Context: a sequence of trace requests (recipe, dtype) with the same parameter names; the graph
+    of the last request is emitted and judged like any other graph."""
+    fa = setup_repo_import()
+    part = new_part()
+    recipes, types = reuse_alphabet()
+    tgt = task["target"]
+    alphabet = [(ri, t) for ri in range(len(recipes)) for t in types[tgt]]
+    depth = task["depth"]
+    seqs = [list(p) for d in range(2, depth + 1) for p in itertools.product(alphabet, repeat=d)][task["lo"]::task["stride"]]
+    workdir = tempfile.mkdtemp(prefix="c05_", dir="/var/tmp")
+    try:
+        cpp_items = []
+        for seq in seqs:
+            seq = [tuple(e) for e in seq]
+            ctx = fa.Context(paths=[fa.algorithms])
+            target = getattr(fa.targets, tgt)
+            g = None
+            with quiet():
+                try:
+                    for si, (ri, t) in enumerate(seq):
+
+                        def f(ctx, x, y):
+                            return build_recipe(fa, ctx, recipes[ri], {"x": x, "y": y})
+
+                        g = ctx.trace(f, f"x:{t}", f"y:{t}").rewrite(target)
+                        if si < len(seq) - 1:
+                            try:
+                                g.tostring(target)  # emitting registers the reference names of this graph in the Context
+                            except Exception:
+                                pass
+                except Exception:
+                    g = None
+            if g is None:
+                bump(part, "reuse_not_traced")
+                continue
+            ri, t = seq[-1]
+            label = "one Context, requests " + " ; ".join(f"{skeleton(recipes[r])}[{tt}]" for r, tt in seq) + f" [{tgt}]"
+            case = {"scenario": "context-reused", "target": tgt, "sequence": [[r, tt] for r, tt in seq]}
+            part["transitions"] = part.get("transitions", 0) + len(seq)
+            if recipes[ri][0] == "select" and t.startswith("complex"):
+                continue
+            if tgt == "python":
+                judge_python(fa, part, g, label, case)
+            elif tgt == "numpy":
+                judge_numpy(fa, part, g, label, case, [getattr(np, t)] * 2)
+            else:
+                cpp_items.append((g, label, case, [getattr(np, t)] * 2))
+        for i in range(0, len(cpp_items), 60):
+            judge_cpp_batch(fa, part, cpp_items[i:i + 60], workdir, f"reuse_{task['lo']}_{i}")
+    finally:
+        shutil.rmtree(workdir, ignore_errors=True)
+    if seqs:
+        part["samples"].append({"context_reuse_sequence": str(seqs[len(seqs) // 2])})
+    return part
+
+
 def w_shipped(task):
     fa = setup_repo_import()
     part = new_part()
@@ -638,6 +789,8 @@ def run(run):
     n = len(lattice_programs())
     run.counters["lattice_programs"] = n
     run.map(MOD, "w_lattice", [dict(lo=lo, stride=48) for lo in range(48)])
+    depth = 3 if run.tier == "thorough" else 2
+    run.map(MOD, "w_reuse", [dict(target=tg, depth=depth, lo=lo, stride=6) for tg in ("python", "numpy", "cpp") for lo in range(6)])
     run.coverage_extra["programs"] = int(run.evaluations)
     run.rule = (
         f"{len(reqs)} shipped requests (python, numpy, cpp) and {n} lattice programs (every declared kind on symbols; outer x inner x operand position incl. select and comparisons as "
@@ -656,6 +809,13 @@ def replay(case):
     part = new_part()
     if "req" in case:
         part = w_shipped(dict(reqs=[case["req"]]))
+    elif "sequence" in case:
+        recipes, types = reuse_alphabet()
+        seq = [tuple(e) for e in case["sequence"]]
+        tgt = case["target"]
+        alphabet = [(ri, t) for ri in range(len(recipes)) for t in types[tgt]]
+        allseq = [list(p) for d in range(2, len(seq) + 1) for p in itertools.product(alphabet, repeat=d)]
+        part = w_reuse(dict(target=tgt, depth=len(seq), lo=allseq.index(seq), stride=len(allseq)))
     else:
         recipe = eval(case["recipe"])
         label = skeleton(recipe)
